@@ -61,21 +61,34 @@ def r13_1(run):
 def r13_2(run):
     ci = proto(run)
     k = 0
+    pkp = run.idx.unit(MOD + '.parse_keywords').params
     for name in ('get_info', 'get_info_single'):
         u = U(run, name)
-        for c in calls_in(u):
-            if callee_attr(c) == 'addCallback' and c.args and dotted(c.args[0]) == 'parse_keywords':
-                k += 1
-                kh = [kw for kw in c.keywords if kw.arg == 'key_hints']
-                ok = False
-                if kh:
-                    v = kh[0].value
-                    if name == 'get_info':
-                        ok = dotted(v) == 'args' or (isinstance(v, ast.Call) and dotted(v.func) in ('list', 'tuple') and dotted(v.args[0]) == 'args')
-                    else:
-                        ok = isinstance(v, (ast.List, ast.Tuple)) and len(v.elts) == 1 and dotted(v.elts[0]) == u.params[1]
-                run.ob('R13.2', u, c, '%s parses with key_hints = the requested keys' % name, ok, slot='hints:%s' % name,
-                       message='%s parses the reply without the requested keys as hints: a value line containing "=" is taken for a new key' % name)
+        uses = []       # (node, positional args after the reply text, keywords)
+        nodes = list(walk_unit(u))
+        for ch in u.children:
+            nodes += list(walk_unit(ch))
+        for c in nodes:
+            if isinstance(c, ast.Call) and callee_attr(c) == 'addCallback' and c.args and dotted(c.args[0]) == 'parse_keywords':
+                uses.append((c, list(c.args[1:]), c.keywords))
+            elif isinstance(c, ast.Call) and dotted(c.func) == 'parse_keywords' and c.args:
+                uses.append((c, list(c.args[1:]), c.keywords))
+        for c, pos, kws in uses:
+            k += 1
+            # bind against parse_keywords' own parameter list (the reply text takes the first one)
+            bound = dict(zip(pkp[1:], pos))
+            bound.update((kw.arg, kw.value) for kw in kws if kw.arg)
+            v = bound.get('key_hints')
+            ok = False
+            if v is not None:
+                if name == 'get_info':
+                    ok = dotted(v) == 'args' or (isinstance(v, ast.Call) and dotted(v.func) in ('list', 'tuple') and dotted(v.args[0]) == 'args')
+                else:
+                    ok = isinstance(v, (ast.List, ast.Tuple)) and len(v.elts) == 1 and dotted(v.elts[0]) == u.params[1]
+            stray = [p_ for p_ in bound if p_ != 'key_hints']
+            run.ob('R13.2', u, c, '%s parses with key_hints = the requested keys' % name, ok, slot='hints:%s' % name,
+                   message='%s parses the reply without the requested keys as hints (%s): a value line containing "=" is taken for a new key'
+                           % (name, 'the extra argument lands in %s' % stray if stray else 'no key_hints'))
         # the raw request names exactly the requested keys
         raw = [c for c in calls_in(u) if dotted(c.func) == 'self.get_info_raw']
         ok = len(raw) == 1 and ((name == 'get_info' and isinstance(raw[0].args[0], ast.Starred) and dotted(raw[0].args[0].value) == 'args') or
@@ -445,6 +458,7 @@ RULES = [
 from ..selftest import M  # noqa: E402
 F = 'txtorcon/torcontrolprotocol.py'
 MUTANTS = [
+    M('hints-land-in-multiline-flag', F, "        d.addCallback(parse_keywords, key_hints=[key])\n        d.addCallback(lambda values: values[key])", "        d.addCallback(lambda raw: parse_keywords(raw, [key])[key])", ['R13.2']),
     M('one-line-list-test-negated', F, "                    if isinstance(rtn[key], list):\n                        rtn[key].append(value)\n", "                    if not isinstance(rtn[key], list):\n                        rtn[key].append(value)\n", ['R13.3']),
     M('one-line-append-dropped', F, "                    if isinstance(rtn[key], list):\n                        rtn[key].append(value)\n", "                    if isinstance(rtn[key], list):\n                        pass\n", ['R13.3']),
     M('one-line-pair-dropped', F, "                        rtn[key].append(value)\n                    else:\n                        rtn[key] = [rtn[key], value]\n", "                        rtn[key].append(value)\n", ['R13.3']),
@@ -469,6 +483,7 @@ MUTANTS = [
     M('single-default-mapped', F, "        d.addCallback(lambda kw: list(kw.values())[0])", "        d.addCallback(lambda kw: list(kw.values())[0] or DEFAULT_VALUE)", ['R13.5']),
 ]
 TWINS = [
+    M('single-folded-lambda', F, "        d.addCallback(parse_keywords, key_hints=[key])\n        d.addCallback(lambda values: values[key])", "        d.addCallback(lambda raw: parse_keywords(raw, key_hints=[key])[key])"),
     M('regex-split-correct', F, ["def parse_keywords(lines, multiline_values=True, key_hints=None):", "        sp = line.split('=', 1)\n        found_key = ('=' in line and ' ' not in sp[0])\n        if found_key and key_hints and sp[0] not in key_hints:", "            (key, value) = line.split('=', 1)\n"],
       ["_KW = re.compile(r'^([^= ]+)=(.*)$', re.DOTALL)\n\n\ndef parse_keywords(lines, multiline_values=True, key_hints=None):", "        m = _KW.match(line)\n        found_key = m is not None\n        if found_key and key_hints and m.group(1) not in key_hints:", "            (key, value) = m.groups()\n"]),
     M('store-helper-correct', F, ["""    # FIXME could use some refactoring to reduce code duplication!
